@@ -19,6 +19,7 @@
 import Abnf.Engine
 import Abnf.EngineC
 import Abnf.DriverExt
+import Abnf.Ref
 import Std.Data.HashMap
 open Abnf
 
@@ -115,6 +116,14 @@ def handle (G : Grammar) (toks : List String) (st : HM) (x : Abnf.Ext.XState) : 
     let s := nats cps
     let (res, st) := lparseC hmOps G fuel s (.ref r.toNat!) 0 st
     (showPRes (wholeOf s (pickWith id res)), st, x)
+  -- the reference grammar typed from RFC 5234 / RFC 7405 (Abnf/Ref.lean), run by the model engine
+  | "rfcends" :: name :: i :: cps =>
+    match Abnf.Ref.indexOf name with
+    | some r => (showRes (lparseC hmOps Abnf.Ref.rfcG fuel (nats cps) (.ref r) i.toNat! {}).1 false, st, x)
+    | none => ("no-such-rule", st, x)
+  | ["b1table"] =>
+    (String.intercalate ";" (Abnf.Ref.b1Class.map (fun (n, ivs) =>
+      n ++ String.join (ivs.map (fun (a, b) => " " ++ toString a ++ "-" ++ toString b)))), st, x)
   -- cache-free engine (the definition the theorems speak about)
   | "lparse0" :: r :: i :: cps => (showRes (lparse G fuel (nats cps) (.ref r.toNat!) i.toNat!) true, st, x)
   | "ends0" :: r :: i :: cps => (showRes (lparse G fuel (nats cps) (.ref r.toNat!) i.toNat!) false, st, x)
